@@ -8,7 +8,7 @@
 (*  Mode "pairs":  every (from, to) pair, for patch / merge-patch generation  *)
 (*                 (the generated patches are judged by MC_UtilCheck)         *)
 (***************************************************************************)
-EXTENDS Patch, TLC, Json
+EXTENDS PatchImpl, TLC, Json
 CONSTANTS Mode, Tier, Emit
 VARIABLES a, b, phase
 
@@ -88,16 +88,27 @@ Init == /\ phase = 0 /\ b = VNull
 Step ==
   CASE Mode = "apply" ->
          /\ b' \in Patches(a)
-         /\ LET r == ApplyRFC(a, b') cls == IF r.open THEN "O" ELSE IF r.ok THEN "S" ELSE "F" IN
-            Emit => PrintT(ToJson(<<"A", JV(a), JV(b'), cls, IF r.ok THEN JV(r.doc) ELSE <<>>>>))
+         /\ LET r == ApplyRFC(a, b') cls == IF r.open THEN "O" ELSE IF r.ok THEN "S" ELSE "F"
+                i == ApplyImpl(a, b')
+                \* known finding (KNOWN_FINDINGS.txt): copy / move onto the whole document is refused
+                rootCM == b'.t = "arr" /\ \E k \in DOMAIN b'.m : LET o == b'.m[k].v IN
+                             o.t = "obj" /\ StrMember(o, KOp).isStr /\ StrMember(o, KOp).s \in {OpCopy, OpMove} /\ StrMember(o, KPath).isStr /\ StrMember(o, KPath).s = <<>>
+            IN /\ Assert(cls = "S" => ((i.status = 0 /\ SemEq(i.doc, r.doc, TRUE)) \/ (rootCM /\ i.status # 0)), <<"C16: apply_patch transcription fails or differs on a patch RFC 6902 accepts", a, b', i>>)
+               /\ Assert(cls = "F" => i.status # 0, <<"C16: apply_patch transcription succeeds on a patch RFC 6902 rejects", a, b', i>>)
+               /\ (Emit => PrintT(ToJson(<<"A", JV(a), JV(b'), cls, IF r.ok THEN JV(r.doc) ELSE <<>>, i.status>>)))
     [] Mode = "merge" ->
          /\ b' \in MergeUniverse
          /\ LET r == MergeRFC(a, b') IN
+            /\ Assert(SemEq(MergeImpl(a, b'), r, TRUE), <<"C18: merge_patch transcription differs from RFC 7396", a, b'>>)
             /\ Assert(b'.t = "obj" \/ r = b', "RFC 7396: a non-object patch replaces the target")
             /\ Assert(~HasNullMember(r) \/ b'.t # "obj" \/ HasNullMember(a), "RFC 7396: null members delete")
             /\ (Emit => PrintT(ToJson(<<"M", JV(a), JV(b'), JV(r)>>)))
     [] OTHER ->
          /\ b' \in PairUniverse
+         /\ LET p == GeneratePatchesImpl(a, b') r == ApplyRFC(a, p) IN
+            Assert(r.ok /\ SemEq(r.doc, b', TRUE) /\ ((p.m = <<>>) <=> SemEq(a, b', TRUE)), <<"C17: create_patches transcription: the patch does not transform from into to", a, b', p>>)
+         /\ LET g == GenMergeImpl(a, b') IN
+            Assert(HasNullMember(b') \/ (IF g.t = "missing" THEN SemEq(a, b', TRUE) ELSE SemEq(MergeRFC(a, g), b', TRUE)), <<"C18: generate_merge_patch transcription: the merge patch does not transform from into to", a, b', g>>)
          /\ (Emit => PrintT(ToJson(<<"P", JV(a), JV(b'), SemEq(a, b', TRUE), HasNullMember(b')>>)))
 
 Next == phase = 0 /\ phase' = 1 /\ a' = a /\ Step
